@@ -7,6 +7,8 @@ implementation: fields(parse(format(parse s))) = fields(parse s), format idempot
 `from_date*` = the ISO rendering."""
 import datetime
 import itertools
+import json
+import os
 import re
 
 from lib import common, timexcorr as tc
@@ -262,6 +264,123 @@ def tree_grammar(ctx, n_per):
     return out
 
 
+# ---------------------------------------------------------------- regex-independent direction: field grids
+
+def field_grid(ctx):
+    """-> list of (kind, kwargs, expected canonical string).  Built from field VALUES through the constructor, so it does
+    not depend on what the patterns of the tree accept now: a canonical string the formatter emits and the parser no
+    longer reads is a property failure with that string."""
+    r = ctx.rng('field-grid')
+    out = []
+    years = [1, 999, 1000, 1999, 2000, 2020, 9999] + [r.randint(1, 9999) for _ in range(6 if ctx.thorough else 2)]
+    months = list(range(1, 13))
+    days = [1, 2, 9, 10, 15, 28, 29, 30, 31]
+    times = [(h, m, s) for h in (0, 1, 9, 10, 12, 23, 24) for m in (0, 1, 30, 59) for s in (0, 1, 30, 59)]
+    if ctx.thorough:
+        times = [(h, m, s) for h in range(25) for m in (0, 1, 9, 10, 30, 59) for s in (0, 1, 9, 10, 30, 59)]
+
+    def T(h, m, s):
+        return (('hour', h), ('minute', m), ('second', s))
+
+    for y in years:
+        for m in months:
+            for d in days:
+                out.append(('date', (('year', y), ('month', m), ('day_of_month', d)), '%04d-%02d-%02d' % (y, m, d)))
+            out.append(('yearmonth', (('year', y), ('month', m)), '%04d-%02d' % (y, m)))
+        out.append(('year', (('year', y),), '%04d' % y))
+        for se in SEASONS:
+            out.append(('yearseason', (('year', y), ('season', se)), '%04d-%s' % (y, se)))
+        for w in range(1, 54):
+            out.append(('week', (('year', y), ('week_of_year', w)), '%04d-W%02d' % (y, w)))
+            out.append(('weekend', (('year', y), ('week_of_year', w), ('weekend', True)), '%04d-W%02d-WE' % (y, w)))
+    for m in months:
+        for d in days:
+            out.append(('openyear', (('month', m), ('day_of_month', d)), 'XXXX-%02d-%02d' % (m, d)))
+        out.append(('month', (('month', m),), 'XXXX-%02d' % m))
+        for w in range(1, 6):
+            out.append(('monthweek', (('month', m), ('week_of_month', w)), 'XXXX-%02d-W%02d' % (m, w)))
+            for dow in range(1, 8):
+                out.append(('monthweekday', (('month', m), ('week_of_month', w), ('day_of_week', dow)),
+                            'XXXX-%02d-WXX-%d-%d' % (m, w, dow)))
+    for dow in range(1, 8):
+        out.append(('weekday', (('day_of_week', dow),), 'XXXX-WXX-%d' % dow))
+    for se in SEASONS:
+        out.append(('season', (('season', se),), se))
+    for (h, m, s) in times:
+        out.append(('time', T(h, m, s), iso_time(h, m, s)))
+    for p in PODS:
+        out.append(('partofday', (('part_of_day', p),), 'T' + p))
+    out.append(('present', (('now', True),), 'PRESENT_REF'))
+    for name, pre, u in [('years', 'P', 'Y'), ('months', 'P', 'M'), ('weeks', 'P', 'W'), ('days', 'P', 'D'),
+                         ('hours', 'PT', 'H'), ('minutes', 'PT', 'M'), ('seconds', 'PT', 'S')]:
+        for a in ['0', '1', '2', '7', '10', '36', '99', '100', '1000', '123456789', '0.5', '1.5', '1.50', '2.25', '10.0',
+                  '0.25', '3.125', '0.10', '0.000001', '0.0000001']:
+            out.append(('duration', ((name, 'D:' + a),), '%s%s%s' % (pre, a, u)))
+    tsel = times if ctx.thorough else times[::5] + [(0, 0, 0), (24, 0, 0), (23, 59, 59), (5, 30, 0)]
+    for (h, m, s) in tsel:
+        out.append(('datetime', (('year', 2020), ('month', 2), ('day_of_month', 29)) + T(h, m, s), '2020-02-29' + iso_time(h, m, s)))
+        out.append(('datetime', (('year', 1), ('month', 1), ('day_of_month', 1)) + T(h, m, s), '0001-01-01' + iso_time(h, m, s)))
+        out.append(('datetime', (('month', 12), ('day_of_month', 25)) + T(h, m, s), 'XXXX-12-25' + iso_time(h, m, s)))
+        out.append(('datetime', (('day_of_week', 1 + (h + m + s) % 7),) + T(h, m, s), 'XXXX-WXX-%d' % (1 + (h + m + s) % 7) + iso_time(h, m, s)))
+    for p in PODS:
+        out.append(('datepartofday', (('year', 2020), ('month', 12), ('day_of_month', 31), ('part_of_day', p)), '2020-12-31T' + p))
+        out.append(('datepartofday', (('month', 5), ('day_of_month', 6), ('part_of_day', p)), 'XXXX-05-06T' + p))
+        out.append(('datepartofday', (('day_of_week', 3), ('part_of_day', p)), 'XXXX-WXX-3T' + p))
+    return out
+
+
+def check_field_grid(ctx):
+    grid = field_grid(ctx)
+    res = tc.run_ops([('ctor', kw) for _, kw, _ in grid])
+    for (kind, kw, exp), rt in zip(grid, res):
+        ctx.count('ctor:' + kind)
+        ctx.nontriv(('ctor', kw))
+        bad = sig = None
+        tiny = kind == 'duration' and isinstance(rt, tuple) and 'E' in rt[0]
+        if isinstance(rt, str):
+            bad, sig = 'Timex(%s).timex_value() raises or hangs: %s' % (dict(kw), rt), 'ctor-format-' + kind
+        else:
+            v, f1, f2, v2 = rt
+            if v != exp and not tiny:
+                bad, sig = 'Timex(%s).timex_value() is %r, expected the canonical %r' % (dict(kw), v, exp), 'ctor-format-' + kind
+            elif f1 != f2:
+                bad = 'the canonical string %r that the formatter emits for %s is not read back: Timex(%r) has %s, expected %s' % (
+                    v, dict(kw), v, f2, f1)
+                sig = 'tiny-amount-scientific' if tiny else 'canonical-not-parsed-' + kind
+            elif v2 != v:
+                bad, sig = 'format not idempotent: fields %s -> %r -> %r' % (dict(kw), v, v2), 'canonical-not-stable-' + kind
+        if bad:
+            tc.report(ctx, 'property', sig, bad,
+                      failing_input={'op': 'Timex(**fields).timex_value() -> Timex(text)', 'fields': dict(kw), 'kind': kind,
+                                     'string': rt[0] if isinstance(rt, tuple) else None, 'expected_text': exp,
+                                     'observed': rt}, property_fails=True)
+    ctx.sample({'op': 'ctor', 'fields': dict(grid[len(grid) // 2][1]), 'result': res[len(grid) // 2]})
+
+
+CORPUS = os.path.join(common.VERIF, 'corpus', 'C14-canonical.jsonl')
+
+
+def check_corpus(ctx):
+    """Committed canonical strings per kind with the field values they must parse to (independent of the patterns that
+    stand in the tree now)."""
+    rows = [json.loads(l) for l in open(CORPUS, encoding='utf-8') if l.strip()]
+    res = tc.run_ops([('roundtrip', r['string']) for r in rows])
+    for r, rt in zip(rows, res):
+        ctx.count('corpus:' + r['kind'])
+        s = r['string']
+        bad = None
+        if isinstance(rt, str):
+            bad = 'Timex(%r) raises or hangs: %s' % (s, rt)
+        elif rt[1] != r['fields']:
+            bad = 'canonical string %r is no longer read: Timex(%r) has fields %s, expected %s' % (s, s, rt[1], r['fields'])
+        elif rt[0] != s:
+            bad = 'canonical string %r does not come back identical: timex_value() is %r' % (s, rt[0])
+        if bad:
+            tc.report(ctx, 'property', 'canonical-corpus-' + r['kind'], bad,
+                      failing_input={'op': 'Timex(s).timex_value() on a committed canonical string', 'string': s,
+                                     'kind': r['kind'], 'expected_fields': r['fields'], 'observed': rt}, property_fails=True)
+
+
 def classify(fam, s, tag, v):
     """stable signature of a failed round trip"""
     if fam == 'monthweek' or tag == 'monthweek' or re.match(r'^XXXX-\d\d-W\d\d$', s):
@@ -295,6 +414,11 @@ def correspond(ctx):
 
 
 def _correspond(ctx):
+    from translate import timexregex as _tr
+    for fam, text, why in _tr.UNTRANSLATED:
+        ctx.notes.append('pattern not expressible by the flat matcher (model runs a never-matching pattern instead): %s %r (%s)' % (fam, text, why))
+    check_field_grid(ctx)
+    check_corpus(ctx)
     cases = grammar(ctx) + noise(ctx) + tree_grammar(ctx, 400 if ctx.thorough else 60)
     # distinct strings, first family wins
     seen = {}
